@@ -330,17 +330,17 @@ func runConc(prop string, c *ConcCase, ch sched.Chooser) (concStats, []int, stri
 		}
 	} else {
 		var wg sync.WaitGroup
+		var gs vt.GoidSet
 		for w := range c.Workers {
 			wg.Add(1)
 			b := body(w)
-			go func() { defer wg.Done(); b() }()
+			go func() { defer wg.Done(); gs.Add(); b() }()
 		}
 		done := make(chan struct{})
 		go func() { wg.Wait(); close(done) }()
-		select {
-		case <-done:
-		case <-time.After(120 * time.Second):
-			return st, nil, "requests did not complete within 120s (deadlock?)"
+		// the requests run on the workers' own stacks (inline): all of them blocked = deadlock, some running = slow machine
+		if mis := vt.Await(done, 120*time.Second, gs.IDs, "concurrent requests"); mis != "" {
+			return st, nil, "deadlock: " + mis
 		}
 	}
 	// final sequential reads close the history
